@@ -32,9 +32,13 @@ def main():
             if not ok:
                 print(out[-3000:])
                 bad += 1
-    for tool in getattr(E, "EXTRA_BUILDS", []):
-        ok, out = tool()
-        print("%s: %s (%.0fs)" % (tool.__name__, "ok" if ok else "FAILED", time.time() - t0))
+    import c15
+    import c19arith
+    extra = [c15.build_translator, getattr(c19arith, "build_translator", None)]
+    for tool in [t for t in extra if t]:
+        r = tool()
+        ok, out = bool(r[0]), r[1]
+        print("%s.%s: %s (%.0fs)" % (tool.__module__, tool.__name__, "ok" if ok else "FAILED", time.time() - t0))
         if not ok:
             print(out[-3000:])
             bad += 1
